@@ -10,7 +10,7 @@ C->S  : operators recorded from the real code for real wavelets / hypothesis-cho
 """
 import numpy as np
 
-from .. import dwtlib, dwtmodel, oracles, dwtchecks
+from .. import dwtlib, dwtmodel, oracles, dwtchecks, stagetrace
 from ..findings import Findings
 
 LEVEL = "model_checking"
@@ -29,6 +29,7 @@ def run(rep):
     calls2 = dwtmodel.run_calls2(rep, rep.tier, ["FwdShapesOK", "FwdRaiseOK", "BandsOK", "FunctionalSlotsOK"], {"fwd"})
     dwtchecks.analysis_2d(rep, fnd, table, calls2.records, "C01")
     dwtchecks.trace_validate_analysis(rep, "C01", rep.tier)
+    stagetrace.validate_dwt1(rep, "C01", rep.tier, "DWT1DForward")
     dwtchecks.numeric_vs_pywt(rep, "C01", rep.tier)
     rep.assumptions += [
         "TLC bounds: see coverage.tlc_runs; beyond them only the recorded executions are checked",
